@@ -16,6 +16,7 @@ type searchCase struct {
 	Pattern *string  `json:"pattern,omitempty"`
 	Anagram *string  `json:"anagram,omitempty"`
 	Blank   string   `json:"blank"`
+	Rejects bool     `json:"built_with_rejected_adds,omitempty"`
 }
 
 type searchCaseJSON searchCase
@@ -84,6 +85,23 @@ func anagramMatches(w, ana string, blank byte) bool {
 	return need <= blanks
 }
 
+// buildWithRejects builds the Dawg of sc.Words through a Builder that is also offered duplicates and smaller
+// words in between (all of which must be rejected and must not change what is built).
+func buildWithRejects(words []string) (*dawg.Dawg, error) {
+	db := new(dawg.Builder)
+	for i, w := range words {
+		if err := db.Add([]byte(w)); err != nil {
+			return nil, err
+		}
+		db.Add([]byte(w)) // duplicate: rejected
+		if i > 0 {
+			db.Add([]byte(words[i-1])) // smaller than the last word: rejected
+			db.Add([]byte(words[0]))
+		}
+	}
+	return db.Finish()
+}
+
 func evalSearch(sc searchCase, d *dawg.Dawg, before string) *Failure {
 	mk := func(cl, what string) *Failure {
 		kind := ""
@@ -110,7 +128,13 @@ func evalSearch(sc searchCase, d *dawg.Dawg, before string) *Failure {
 	}
 	if d == nil {
 		var err error
-		if msg, p := try(func() { d, err = dawg.New(toBytes(sc.Words, false)) }); p || err != nil {
+		if msg, p := try(func() {
+			if sc.Rejects {
+				d, err = buildWithRejects(sc.Words)
+			} else {
+				d, err = dawg.New(toBytes(sc.Words, false))
+			}
+		}); p || err != nil {
 			return mk("build-failed", fmt.Sprint(msg, err))
 		}
 	}
@@ -174,6 +198,14 @@ func evalSearch(sc searchCase, d *dawg.Dawg, before string) *Failure {
 }
 
 func sp(s string) *string { return &s }
+
+func bytesRepeat(b byte, n int) []byte {
+	out := make([]byte, n)
+	for i := range out {
+		out[i] = b
+	}
+	return out
+}
 
 func dedupSorted(ws []string) []string {
 	sort.Strings(ws)
@@ -285,6 +317,43 @@ func runC13(c *Ctx) {
 				wideCases = append(wideCases, searchCase{Words: ws, Pattern: sp(q), Blank: blank})
 				wideCases = append(wideCases, searchCase{Words: ws, Anagram: sp(q), Blank: blank})
 			}
+		}
+	}
+	// Dawgs built through a Builder that was also offered duplicates / out-of-order words (rejected): ranks must be unaffected
+	for s := int64(0); s < total; s += 7 {
+		ws := subsetOf(u3, uint64(s))
+		for _, q := range []string{"?", "??", "???", "a?", "?b?"} {
+			wideCases = append(wideCases, searchCase{Words: ws, Pattern: sp(q), Blank: "?", Rejects: true})
+			wideCases = append(wideCases, searchCase{Words: ws, Anagram: sp(q), Blank: "?", Rejects: true})
+		}
+	}
+	// long words and anagram letter lists with 9 and more distinct letters, given in many orders
+	longDict := dedupSorted([]string{"abcdefghi", "abcdefghij", "bcadefghi", "ihgfedcba", "aabcdefgh", "triangles", "integrals", "relatings", "alertings", "abcdefghijk", "kjihgfedcba", "aabbccddee", "abcdefghh", "zyxwvutsr"})
+	for _, base := range []string{"abcdefghi", "aabcdefgh", "triangles", "abcdefghij", "abcdefghijk", "aabbccddee", "abcdefghh"} {
+		b := []byte(base)
+		orders := [][]byte{append([]byte{}, b...)}
+		rev := append([]byte{}, b...)
+		for i, j := 0, len(rev)-1; i < j; i, j = i+1, j-1 {
+			rev[i], rev[j] = rev[j], rev[i]
+		}
+		orders = append(orders, rev)
+		for r := 1; r < len(b); r += 2 {
+			orders = append(orders, append(append([]byte{}, b[r:]...), b[:r]...))
+		}
+		for s := 1; s <= 6; s++ {
+			p := lcgPerm(len(b), uint64(s)*131)
+			o := make([]byte, len(b))
+			for i := range o {
+				o[i] = b[p[i]]
+			}
+			orders = append(orders, o)
+		}
+		for _, o := range orders {
+			wideCases = append(wideCases, searchCase{Words: longDict, Anagram: sp(string(o)), Blank: "?"})
+			withBlank := append([]byte{}, o...)
+			withBlank[len(withBlank)/2] = '?'
+			wideCases = append(wideCases, searchCase{Words: longDict, Anagram: sp(string(withBlank)), Blank: "?"})
+			wideCases = append(wideCases, searchCase{Words: longDict, Anagram: sp(string(o)), Pattern: sp(string(bytesRepeat('?', len(o)))), Blank: "?"})
 		}
 	}
 	c.parFor(int64(len(wideCases)), 4, func(lo, hi int64) {
